@@ -33,7 +33,7 @@ FN = {'phi_1D': 'F_phi_1D', 'one_pop': 'F_one_pop', 'two_pops': 'F_two_pops', 't
 
 HEADER = ('From Coq Require Import ZArith QArith List.\n'
           'From Dadi Require Import Base.Num Base.NumQ Model.DemesFront Model.DemesFrontCheck Model.DemesExportModel '
-          'Model.DemesExportCheck.\nImport ListNotations.\nOpen Scope Q_scope.')
+          'Model.DemesExportReorderModel Model.DemesExportCheck.\nImport ListNotations.\nOpen Scope Q_scope.')
 
 
 class NotInClass(Exception):
@@ -129,8 +129,8 @@ def rounds_of(dump):
 
 
 def in_theorem_class(rounds):
-    """is the log in [log_ok] (the class of export_import_same_program)?  (no reorder_pops; the rest is implied by a
-    program that ran)"""
+    """is the log in [log_ok] (the class of export_import_same_program: no reorder_pops; with reorder_pops the class
+    is [log_okr], the theorem export_import_reorder)?  The rest is implied by a program that ran."""
     return all(r[0][0] != 'reorder' for r in rounds)
 
 
@@ -245,7 +245,27 @@ def lcall_coq(c):
         ns = [a['popnum']]
     elif fn == 'reorder_pops':
         ns = a['neworder']
+    elif fn == 'from_phi':
+        ns = a['ns']
     return 'mkL (%s) %s [%s] %s %s %s []' % (f, q(T), '; '.join(_nu_coq(v) for v in nus), ql(fs), bl(fr), natl(ns))
+
+
+def lcall_ids_coq(c, ids):
+    """a logged call of the re-import (the importer passes the deme names), names -> ranks"""
+    base = lcall_coq(c)
+    assert base.endswith(' []')
+    a = c['args']
+    names = a.get('deme_ids') if c['fn'] != 'from_phi' else a.get('pop_ids')
+    return base[:-3] + ' ' + natl([ids[x] for x in (names or [])])
+
+
+def reimport_case_coq(nu, rounds, graph, ns, calls1):
+    """(the program the model says comes back: sorted_calls log ++ [from_phi ns final names], the calls the real
+    importer made on the real exported graph) for check_prog"""
+    ids = {d['name']: i for i, d in enumerate(graph['demes'])}
+    lg = elog_coq(nu, rounds)
+    return '(sorted_calls %s ++ [simple_call F_from_phi [] %s (final_ids %s)], [%s])' % (
+        lg, natl(ns), lg, '; '.join(lcall_ids_coq(c, ids) for c in calls1))
 
 
 def native_case_coq(nu, rounds, calls0):
